@@ -485,6 +485,57 @@ theorem step_minv (cfg : Config S) (hdt : 0 < cfg.dt) (P : NodeId → Proto S σ
         · exact hfin _ hs
         · exact hs
 
+theorem stepRaised_minv (cfg : Config S) (hdt : 0 < cfg.dt) (P : NodeId → Proto S σ) (w : World S σ)
+    (h : MInv cfg w) (hw : WInv w) : MInv cfg (stepRaised cfg P w) := by
+  have hcb : ∀ (cb : Callback S) (ns : List NodeId) (w2 : World S σ), MInv cfg w2 →
+      MInv cfg (callbackAll cfg P cb ns w2) := by
+    intro cb ns w2 h2
+    unfold callbackAll
+    exact foldl_minv (fun w n => callback cfg P n cb w) _ (fun w n hw => hw.mext (mext_callback cfg P n cb w)) w2 h2
+  have hlog : ∀ (f : String → Obs S) (hs : List String) (w2 : World S σ), MInv cfg w2 →
+      MInv cfg (logAll f hs w2) := by
+    intro f hs w2 h2
+    unfold logAll
+    exact foldl_minv (fun w h => log (f h) w) _ (fun w s hw => hw.congr (w := w) rfl rfl rfl) w2 h2
+  unfold stepRaised
+  split
+  · exact h
+  · have hi : WInv (if w.initialized then w else initialise cfg P w) ∧
+        MInv cfg (if w.initialized then w else initialise cfg P w) := by
+      split
+      · exact ⟨hw, h⟩
+      · refine ⟨(initialise_inv cfg P w hw).1, ?_⟩
+        unfold initialise
+        exact hcb _ _ _ (hlog _ _ _ (h.congr (w := w) rfl rfl rfl))
+    generalize (if w.initialized then w else initialise cfg P w) = w1 at hi
+    obtain ⟨hw1, h1⟩ := hi
+    simp only
+    split
+    · unfold finalise
+      split
+      · exact h1
+      · exact MInv.congr (w := logAll Obs.handlerFinal cfg.handlers
+          (callbackAll cfg P .finish (List.range cfg.nNodes) w1)) rfl rfl rfl (hlog _ _ _ (hcb _ _ _ h1))
+    · split
+      · exact h1
+      · rename_i e rest hq
+        exact execEv_popped_minv cfg hdt P e rest w1 h1 hw1 hq
+
+theorem reachableT_minv {cfg : Config S} (hdt : 0 < cfg.dt) {P : NodeId → Proto S σ} {w : World S σ}
+    (h : ReachableT cfg P w) : MInv cfg w := by
+  have hdt' : 0 ≤ cfg.dt := by omega
+  induction h with
+  | init => exact init_minv cfg P
+  | @step w0 hr ih =>
+    have hw := reachableT_inv hdt' hr
+    have hprep : WInv (prep cfg P w0) := by
+      unfold prep; split
+      · exact hw
+      · exact (initialise_inv cfg P w0 hw).1
+    exact step_minv cfg hdt P w0 ih hprep
+  | ext n p _ ih => exact ih.mext (mext_runProg cfg n p _)
+  | raised hr ih => exact stepRaised_minv cfg hdt P _ ih (reachableT_inv hdt' hr)
+
 theorem initWith_minv (cfg : Config S) (P : NodeId → Proto S σ) (pre : List (NodeId × Prog S σ)) :
     MInv cfg (initWith cfg P pre) :=
   initWith_induction (C := fun w => MInv cfg w) (init_minv cfg P)
